@@ -111,6 +111,12 @@ class CallMixin:
         qn = fi.qualname
         if qn in self.modular and qn in self.contracts and not self.spec_mode:
             return self.call_modular(fi, self.contracts[qn], args, kwargs, node)
+        C0 = getattr(self, 'current_contract', None)
+        if C0 is not None and qn == C0.qualname and self.call_depth > 0 and not self.spec_mode:
+            # self-recursive call: use the function's own contract (induction), after checking the measure
+            if C0.decreases is None:
+                raise Unsupported('recursive call of %s needs a `decreases` measure in its contract' % qn)
+            return self.call_modular(fi, C0, args, kwargs, node, decreases=True)
         hook = self.function_hooks.get(qn)
         if hook is not None:
             r = hook(self, fi, args, kwargs, node)
